@@ -473,6 +473,8 @@ func (w *World) applyContract(tx *ctypes.Trx, hash []byte, res TxResult) {
 		w.Contracts[ak(caddr[:])] = "deployed"
 		if pl, ok := tx.Payload.(*ctypes.TrxPayloadContract); ok && bytes.Equal(pl.Data, initCodeFor(suiciderRuntime)) {
 			w.Contracts[ak(caddr[:])] = "suicider"
+		} else if ok && bytes.Equal(pl.Data, initCodeFor(burnerRuntime)) {
+			w.Contracts[ak(caddr[:])] = "burner"
 		}
 		w.Feat["ok_deploy"]++
 	} else {
@@ -487,6 +489,17 @@ func (w *World) applyContract(tx *ctypes.Trx, hash []byte, res TxResult) {
 // the "suicider" (CALLER SELFDESTRUCT) pays its whole balance to the caller and ceases to exist.
 func (w *World) afterTemplateCall(tx *ctypes.Trx) {
 	k := ak(tx.To)
+	if w.Contracts[k] == "burner" {
+		// self-destruct into itself: the balance (including what this call brought) is burnt - the one way
+		// the EVM destroys value by definition; accounted like slashed stake in the conservation sum
+		rc := w.acct(tx.To)
+		w.Slashed.Add(w.Slashed, rc.Bal)
+		rc.Bal, rc.Nonce = u256(0), 0
+		delete(w.Contracts, k)
+		w.Dead[k] = true
+		w.Feat["evm_burn"]++
+		return
+	}
 	if w.Contracts[k] != "suicider" {
 		return
 	}
